@@ -179,6 +179,11 @@ func checkC13(c *Ctx) {
 	// O8: a metric is emitted with its own tags (shared with C12 O7)
 	c.checkSharedTagSlices("O8 shared-tags")
 	c.checkPublishedNotRecycled("O8 published-not-recycled")
+	c.checkBorrowedTagsReturnedOnce("O8 borrowed-returned-once")
+	c.checkClockRefresh("O5 clock-refresh")
+	c.checkNdigits("O7 bucket-identity-digits")
+	// the bucket tag value renders the open ends as in the StatsD reporter (shared table rule, C18 O2)
+	c.checkM3Renderers("O7 bucket-identity-open-ends")
 
 	// ---- O5 clock initialised before the goroutines start ---------------------------------------
 	if ctor := c.fn(pk, "", "NewReporter"); ctor != nil {
@@ -585,7 +590,50 @@ func (c *Ctx) checkTagsEqualPred(rule string, fn *ssa.Function) {
 			ranges = true
 		}
 	})
+	// the two per-element tests are decisive: "name not in the map" and "value differs" each lead to
+	// `return false` on every path (a weakened combination such as `!ok && v != value`, or an inverted
+	// comparison, lets a different tag set pass)
+	okMiss, okDiff := false, false
+	instrsOf(fn, func(in ssa.Instruction) {
+		lk, isLk := in.(*ssa.Lookup)
+		if !isLk || canon(lk.X) != ssa.Value(mp) || !lk.CommaOk || lk.Referrers() == nil {
+			return
+		}
+		var okV, valV ssa.Value
+		for _, r := range *lk.Referrers() {
+			if e, isE := r.(*ssa.Extract); isE {
+				if e.Index == 1 {
+					okV = e
+				} else {
+					valV = e
+				}
+			}
+		}
+		for _, b := range fn.Blocks {
+			iff, isIf := condOf(b)
+			if !isIf {
+				continue
+			}
+			if m, onTrue := boolValueCond(okV)(iff.Cond); m && okV != nil {
+				if c.edgeReturnsFalse(b, !onTrue) {
+					okMiss = true
+				}
+			}
+			if op, x, y, isCmp := cmpOf(iff.Cond); isCmp && (op == token.NEQ || op == token.EQL) && valV != nil {
+				fx, _ := loadedField(stripConv(x))
+				fy, _ := loadedField(stripConv(y))
+				isVal := (canon(x) == valV && fy != nil && fy.Name() == "Value") || (canon(y) == valV && fx != nil && fx.Name() == "Value")
+				if isVal && c.edgeReturnsFalse(b, op == token.NEQ) {
+					okDiff = true
+				}
+			}
+		}
+	})
 	ok := lenCmp && lookup && valCmp && nameKey && ranges
+	if ok && !(okMiss && okDiff) {
+		c.bad(rule, key, fn.Pos(), fmt.Sprintf("the tag equality predicate does not return false for every element whose name is missing from the requested map (%v) or whose value differs (%v): a tag slice cached under the same 64-bit key for a different tag set is accepted as equal", okMiss, okDiff))
+		return
+	}
 	c.check(ok, rule, key, fn.Pos(), "equal length, and every cached (name, value) is present in the requested map with the same value",
 		fmt.Sprintf("the tag equality predicate is incomplete (length compared: %v, name looked up: %v, value compared: %v): different tag sets are taken for equal", lenCmp, lookup && nameKey, valCmp))
 }
